@@ -151,6 +151,9 @@ func c13Apply(envs []*env.Env, op c12Op) (out string) {
 	case "Path":
 		e.GetEnvFromPath([]string{op.S})
 		return "(none)"
+	case "SnapKeep": // a copy that is looked at only when the run is over: a snapshot stays what it was
+		c13Kept = append(c13Kept, e.Copy())
+		return fmt.Sprintf("(snapkeep %d)", len(c13Kept)-1)
 	case "Snap":
 		c := e.Copy()
 		d := c13Dump(c, 0)
@@ -160,9 +163,12 @@ func c13Apply(envs []*env.Env, op c12Op) (out string) {
 	return "(bad)"
 }
 
+// copies taken by SnapKeep during the current run
+var c13Kept []*env.Env
+
 func c13OpSx(op c12Op) string {
 	switch op.K {
-	case "Snap":
+	case "Snap", "SnapKeep":
 		return sxList("Snap", sxInt(op.E))
 	case "String", "DeepCopy", "Addr", "Path", "BindGoStringer": // never sent to the model
 		return sxList(op.K, sxInt(op.E))
@@ -174,6 +180,7 @@ func c13OpSx(op c12Op) string {
 func c13RunOnce(initOps []c12Op, threads [][]c12Op, prefix []int) c13Result {
 	// scopes: 0 = root (parent), 1 = shared child; built without the scheduler
 	env.VerifSched = nil
+	c13Kept = nil
 	root := env.NewEnv()
 	envs := []*env.Env{root, root.NewEnv()}
 	for _, op := range initOps {
@@ -265,6 +272,15 @@ func c13RunOnce(initOps []c12Op, threads [][]c12Op, prefix []int) c13Result {
 	}
 	env.VerifSched = nil
 	if !res.Deadlock {
+		for i, outs := range res.Outs {
+			for j, o := range outs {
+				var k int
+				if n, _ := fmt.Sscanf(o, "(snapkeep %d)", &k); n == 1 && k < len(c13Kept) {
+					d := c13Dump(c13Kept[k], 0)
+					res.Outs[i][j] = "(snap " + strings.TrimPrefix(c12SxDump(0, d), "(0 ")
+				}
+			}
+		}
 		for i, e := range envs {
 			res.Final = append(res.Final, c12SxDump(i, c13Dump(e, i)))
 		}
@@ -408,6 +424,13 @@ func c13Directed() []c13Program {
 			{{K: "Set", E: 1, S: "p", V: tv(11)}, {K: "Get", E: 1, S: "p"}},
 			{{K: "Define", E: 1, S: "p", V: tv(12)}, {K: "Delete", E: 1, S: "p"}},
 			{{K: "Get", E: 1, S: "p"}, {K: "Snap", E: 1}}}},
+		// a copy is a snapshot for good: taken from a scope whose table was emptied again, looked at when the run is over
+		{Init: with(c12Op{K: "Define", E: 1, S: "a", V: tv(3)}, c12Op{K: "Delete", E: 1, S: "a"}), Threads: [][]c12Op{
+			{{K: "SnapKeep", E: 1}, {K: "Get", E: 1, S: "b"}}, {{K: "Define", E: 1, S: "b", V: tv(12)}}}},
+		{Init: with(c12Op{K: "Define", E: 1, S: "a", V: tv(3)}, c12Op{K: "Delete", E: 1, S: "a"}), Threads: [][]c12Op{
+			{{K: "SnapKeep", E: 1}, {K: "Symbols", E: 1}}, {{K: "Define", E: 1, S: "a", V: tv(12)}, {K: "Define", E: 1, S: "b", V: tv(13)}}}},
+		{Init: with(c12Op{K: "Define", E: 1, S: "a", V: tv(3)}), Threads: [][]c12Op{
+			{{K: "SnapKeep", E: 1}, {K: "Get", E: 1, S: "a"}}, {{K: "Set", E: 1, S: "a", V: tv(12)}, {K: "Delete", E: 1, S: "a"}}}},
 		// external lookups that call back into the scope they serve: no schedule may deadlock
 		{Reentrant: true, Init: with(c12Op{K: "LazyExt", E: 1}), Threads: [][]c12Op{
 			{{K: "Get", E: 1, S: "zz"}}, {{K: "Define", E: 1, S: "b", V: tv(12)}}}},
